@@ -129,6 +129,26 @@ func Int64Batch(name string, vals []int64, as32 bool) arrow.RecordBatch {
 	return array.NewRecordBatch(arrow.NewSchema([]arrow.Field{{Name: name, Type: arrow.PrimitiveTypes.Int64}}, nil), []arrow.Array{arr}, int64(len(vals)))
 }
 
+// Int64Cols is a batch of int64 columns with the given names; every column
+// holds vals.
+func Int64Cols(names []string, vals []int64) arrow.RecordBatch {
+	mem := memory.NewGoAllocator()
+	var fields []arrow.Field
+	var cols []arrow.Array
+	for _, n := range names {
+		b := array.NewInt64Builder(mem)
+		for _, v := range vals {
+			b.Append(v)
+		}
+		arr := b.NewArray()
+		b.Release()
+		defer arr.Release()
+		fields = append(fields, arrow.Field{Name: n, Type: arrow.PrimitiveTypes.Int64})
+		cols = append(cols, arr)
+	}
+	return array.NewRecordBatch(arrow.NewSchema(fields, nil), cols, int64(len(vals)))
+}
+
 // EmptyBatch is a zero-column zero-row batch (tick / cancel / void).
 func EmptyBatch() arrow.RecordBatch {
 	return array.NewRecordBatch(arrow.NewSchema(nil, nil), nil, 0)
